@@ -3,8 +3,10 @@
 From Kit Require Import C16.Model C16.Spec C16.Check C16.Proofs.
 
 (* Sources are the scripts of C16/ReaderX.v: chunks, zero-length reads, data with EOF, failures of
-   every identity (plain, wrapping io.EOF or io.ErrUnexpectedEOF, bare io.ErrUnexpectedEOF) alone
-   or together with data.  [stop = None]: the consumer reads until it is given an error;
+   every identity (plain; wrapping io.EOF or io.ErrUnexpectedEOF; the sentinels io.ErrUnexpectedEOF,
+   io.ErrClosedPipe, os.ErrClosed, net.ErrClosed, io.ErrNoProgress, context.Canceled,
+   context.DeadlineExceeded, http.ErrBodyReadAfterClose, bare or wrapped) alone or together with
+   data.  [stop = None]: the consumer reads until it is given an error;
    [Some fuel]: it stops after at most [fuel] Read calls.
 
    LimitReadCloser on the current tree: for EVERY limit, script (chunking, zero-length reads at
@@ -53,8 +55,12 @@ Print Assumptions C16_limit_maxint_refuted.
 (* MultiReaderCloser through Read (both variants): concatenation up to the first source that
    does not end with io.EOF and then THAT source's error (a failure that merely wraps io.EOF is
    not the end of a source), EOF only after the last source, every closable source closed exactly
-   once after any number k >= 1 of Close calls. *)
+   once after any number k >= 1 of Close calls.  [multi_dom]: no source ends with
+   http.ErrBodyReadAfterClose - the one identity the code treats specially (Read: "the same as
+   io.EOF", source not closed again; WriteTo: reported), which the property does not speak of; every
+   other identity, io.ErrClosedPipe and os.ErrClosed included, is a failure like any other. *)
 Theorem C16_multi_read_spec : forall v srcs c k, consumer_pos c -> 1 <= k ->
+  multi_dom srcs = true ->
   exists out e cb ca, multi_run v srcs (ViaRead c) None k = (out, Some e, cb, ca) /\
                       multi_spec srcs out e ca.
 Proof. exact multi_read_spec. Qed.
@@ -64,6 +70,7 @@ Print Assumptions C16_multi_read_spec.
    unfinished, and then calls Close: a prefix of the stream, and every closable source -
    finished or not - closed exactly once. *)
 Theorem C16_multi_read_stop_spec : forall v srcs c fuel k, consumer_pos c -> 1 <= k ->
+  multi_dom srcs = true ->
   exists out eo cb ca, multi_run v srcs (ViaRead c) (Some fuel) k = (out, eo, cb, ca) /\
     match eo with
     | Some e => multi_spec srcs out e ca
@@ -113,7 +120,7 @@ Proof. exact limit_oracle_sound. Qed.
 Print Assumptions C16_limit_oracle_sound.
 
 Theorem C16_multi_oracle_sound : forall srcs out e ca,
-  multi_oracle srcs out e ca = true <-> multi_spec srcs out e ca.
+  multi_oracle srcs out e ca = true <-> (multi_dom srcs = true -> multi_spec srcs out e ca).
 Proof. exact multi_oracle_sound. Qed.
 Print Assumptions C16_multi_oracle_sound.
 
@@ -128,7 +135,7 @@ Proof. exact limit_stop_oracle_sound. Qed.
 Print Assumptions C16_limit_stop_oracle_sound.
 
 Theorem C16_multi_stop_oracle_sound : forall srcs out ca,
-  multi_stop_oracle srcs out ca = true <-> multi_stop_spec srcs out ca.
+  multi_stop_oracle srcs out ca = true <-> (multi_dom srcs = true -> multi_stop_spec srcs out ca).
 Proof. exact multi_stop_oracle_sound. Qed.
 Print Assumptions C16_multi_stop_oracle_sound.
 
